@@ -592,7 +592,33 @@ func runNetwork(t *testing.T, run *obs.Run, i int) {
 		m.mu.Lock()
 		m.log = append(m.log, fmt.Sprintf("relay %d->%d", s, d))
 		m.mu.Unlock()
-		res := net.Relay(s, d, 3*time.Second)
+		var res rtsim.RelayResult
+		if k%2 == 1 {
+			// first hop = a random neighbour of the origin (not the target), whatever the
+			// origin's route table says: relays must cope with requests from any neighbour,
+			// dead ends included
+			var nb []int
+			for _, e := range cf.edges {
+				if e[0] == s && e[1] != d {
+					nb = append(nb, e[1])
+				}
+				if e[1] == s && e[0] != d {
+					nb = append(nb, e[0])
+				}
+			}
+			if len(nb) > 0 {
+				first := nb[rng.Intn(len(nb))]
+				m.mu.Lock()
+				m.log = append(m.log, fmt.Sprintf("  (first hop forced to %d)", first))
+				m.mu.Unlock()
+				res = net.RelayVia(s, d, first, 3*time.Second)
+				run.Stat("relay_attempts_with_forced_first_hop", 1)
+			} else {
+				res = net.Relay(s, d, 3*time.Second)
+			}
+		} else {
+			res = net.Relay(s, d, 3*time.Second)
+		}
 		run.Stat("relay_attempts", 1)
 		if res.Delivered {
 			m.relayOK++
